@@ -182,7 +182,7 @@ def bank(seed):
             rl = mw.RateLimiter(mw.RateLimitConfig(capacity=cap, refill_rate=rate, retry_after=7))
             model = {}   # ip -> (tokens, last) exact
             admitted = {}  # ip -> list of admission times
-            ips = ["198.51.100.1", "198.51.100.2"]
+            ips = ["198.51.100.1", "198.51.100.2", "2001:db8::1", "2001:db8:ffff::1", "::1", "fe80::1%eth0", "::ffff:198.51.100.1"][: 2 + 5 * (trial % 2)]
             t_next_cleanup = clock.t + 300
             for step in range(60):
                 gap = rnd.choice([0, 0, 0.5, 1, 30, 299, 301, 650, 900])
